@@ -14,7 +14,7 @@ address const CA = address(address_v4(0x0a000001));
 address const PA = address(address_v4(0x0a000002));
 address const OA = address(address_v4(0x0a000003));
 
-enum { A_LITERAL, A_NAMED, A_UNRESOLVABLE, A_REFUSED, A_DEFAULT_PORT, A_RELATIVE, A_LITERAL_HDR, NREQKIND };
+enum { A_LITERAL, A_NAMED, A_UNRESOLVABLE, A_REFUSED, A_DEFAULT_PORT, A_RELATIVE, A_LITERAL_HDR, A_COLON_PATH, NREQKIND };
 char const* const req_text[NREQKIND] = {
 	"GET http://10.0.0.3:8080/hello HTTP/1.1\r\n\r\n",
 	"PUT http://origin.test:8080/a/b?c=d HTTP/1.1\r\nHost: origin.test\r\n\r\n",
@@ -23,11 +23,12 @@ char const* const req_text[NREQKIND] = {
 	"GET http://10.0.0.3/x HTTP/1.1\r\n\r\n",
 	"GET /relative HTTP/1.1\r\n\r\n",
 	"GET http://10.0.0.3:8080/ HTTP/1.1\r\nX-A: 1\r\nHost: h\r\n\r\n",
+	"GET http://10.0.0.3:8080/clock/12:30?t=1:2 HTTP/1.1\r\n\r\n",
 };
 // what the origin must receive (request line; headers are checked by content)
-char const* const origin_line[NREQKIND] = { "GET /hello HTTP/1.1\r\n", "PUT /a/b?c=d HTTP/1.1\r\n", "", "", "", "", "GET / HTTP/1.1\r\n" };
-char const* const origin_host[NREQKIND] = { "host: 10.0.0.3\r\n", "host: origin.test\r\n", "", "", "", "", "host: h\r\n" };
-bool forwardable(int k) { return k == A_LITERAL || k == A_NAMED || k == A_LITERAL_HDR; }
+char const* const origin_line[NREQKIND] = { "GET /hello HTTP/1.1\r\n", "PUT /a/b?c=d HTTP/1.1\r\n", "", "", "", "", "GET / HTTP/1.1\r\n", "GET /clock/12:30?t=1:2 HTTP/1.1\r\n" };
+char const* const origin_host[NREQKIND] = { "host: 10.0.0.3\r\n", "host: origin.test\r\n", "", "", "", "", "host: h\r\n", "host: 10.0.0.3\r\n" };
+bool forwardable(int k) { return k == A_LITERAL || k == A_NAMED || k == A_LITERAL_HDR || k == A_COLON_PATH; }
 
 struct client
 {
@@ -191,12 +192,16 @@ extern "C" int harness_main()
 		client d; tcp::socket dsock(cios); asio::high_resolution_timer dtimer(tios);
 		d.sock = &dsock; d.timer = &dtimer; d.out = req_text[A_LITERAL]; d.gaps.push_back(0);
 		std::size_t const before = o.responses.size();
+		std::size_t const in_before = o.in.size(); int const answered_before = o.answered;
 		dsock.open(tcp::v4(), ec);
 		dsock.async_connect(tcp::endpoint(PA, 4444), [&](error_code const& e) { d.connected = ecv(e); if (e) return; dsock.non_blocking(true); read_more(d); write_next(d); });
 		s.run();
 		vp_assert(d.connected == 0, 30);
 		vp_assert(d.in == o.responses.substr(before), 31);
 		vp_assert(d.in.size() > 0, 32);
+		// the origin saw exactly this client's request, nothing left over from the previous client
+		vp_assert(o.answered == answered_before + 1, 33);
+		vp_assert(o.in.compare(in_before, std::string::npos, std::string(origin_line[A_LITERAL]) + origin_host[A_LITERAL] + "\r\n") == 0, 34);
 		dsock.close(ec);
 		s.run();
 	}
